@@ -108,7 +108,10 @@ func boundVerdict(bc execgen.BoundCase, br *execgen.BoundResult) (class, viol, i
 		case "ok":
 			return class, "", "seed marked divergent terminated normally (seed bug)"
 		default:
-			return class, "", fmt.Sprintf("seed marked divergent failed with an unrelated error (seed bug): %s %s", br.Root, br.ErrMsg)
+			if br.Class != "user" {
+				return class, fmt.Sprintf("divergent program ended with a %s error instead of a user-visible limit error: %s %s", br.Class, br.Root, br.ErrMsg), ""
+			}
+			return class, "", fmt.Sprintf("seed marked divergent failed with an unrelated user error (seed bug): %s %s", br.Root, br.ErrMsg)
 		}
 	}
 	return class, "", ""
